@@ -3,6 +3,8 @@ CONSTANTS
   R = {"a"}
   MinISR = 1
   FetchMax = 2
+  WideEvery = 0
+  OffsetReset = "all"
   HWFallback = FALSE
   ElectAlive = FALSE
   AllowLag = FALSE
